@@ -964,3 +964,259 @@ register(Unit('definitions.take', D, 'TransformableMixin.take', _unit(_take),
               assumptions=ASSUME + ['contracts of Unique.issuperset (every requested name is present), Unique.__init__ (names in the order given, without repeats), '
                                     'Unique.copy, ASSUMED MutableSet.__iand__ (keeps the shared names in the own order)', 'the rendered list of unknown names is not specified'],
               linkage=[('concepts.Definition.take', None)], max_paths=2000))
+
+
+# ---- remove_empty_objects / remove_empty_properties
+
+def _remove_empty(axis):
+    def body(path):
+        d = make_definition(path)
+        L0 = d.O0 if axis == 'object' else d.P0
+        uobj = d.fields['_objects' if axis == 'object' else '_properties']
+        NSet = seqs.NSet
+        y = Const('y', Name)
+        S = Const('nonempty', NSet)
+        # nonempty = the names with at least one true cell
+        wit = Function('nonempty.w', Name, Name)
+        if axis == 'object':
+            path.assume(ForAll([a_, b_], Implies(Select(d.C0, a_, b_), Select(S, a_)), patterns=[Select(d.C0, a_, b_)]))
+            path.assume(ForAll([y], Implies(Select(S, y), Select(d.C0, y, wit(y))), patterns=[Select(S, y)]))
+        else:
+            path.assume(ForAll([a_, b_], Implies(Select(d.C0, a_, b_), Select(S, b_)), patterns=[Select(d.C0, a_, b_)]))
+            path.assume(ForAll([y], Implies(Select(S, y), Select(d.C0, wit(y), y)), patterns=[Select(S, y)]))
+        Sc = Const('without-true-cell', NSet)
+        path.assume(ForAll([y], Select(Sc, y) == Not(Select(S, y)), patterns=[Select(Sc, y), Select(S, y)]))
+        E = seqs.keep(L0, Sc)
+        made = {}
+
+        def set_closed(interp, env, node):
+            # {o for o, _ in self._pairs}: the first (second) components of the true cells -- checked on a symbolic pair
+            g = node.generators[0]
+            src = interp.eval(g.iter, env)
+            o, pp = Const('co', Name), Const('cp', Name)
+            inner = dict(env)
+            interp.assign(g.target, TupleV([TermV(o), TermV(pp)]), inner)
+            el = interp.eval(node.elt, inner)
+            ok = src is d.fields['_pairs'] and not g.ifs and isinstance(el, TermV)
+            path.oblige('closed-form/nonempty-names', 'post', (el.t == (o if axis == 'object' else pp)) if ok else BoolVal(False))
+            st = ObjV('set', {}, name='nonempty')
+            c = FuncV('set.__contains__', lambda p, a, k: BoolV(Select(S, name_of(a[-1]))))
+            c.is_method = True
+            st.fields['__contains__'] = c
+            return st
+
+        def list_closed(interp, env, node):
+            # [o for o in self._objects if o not in nonempty]: the filter of the own names, in order -- checked on a symbolic name
+            g = node.generators[0]
+            src = interp.eval(g.iter, env)
+            v = Const('cv', Name)
+            inner = dict(env)
+            interp.assign(g.target, TermV(v), inner)
+            conds = [truthy(interp.eval(c, inner)) for c in g.ifs]
+            el = interp.eval(node.elt, inner)
+            ok = src is uobj and len(conds) == 1 and isinstance(el, TermV)
+            path.oblige('closed-form/empty-names', 'post', And(el.t == v, conds[0] == Not(Select(S, v))) if ok else BoolVal(False))
+            from contracts.heap import ListObj
+            lo = ListObj(path, E, 'empty_names')
+            made['list'] = lo
+            return lo
+
+        def inv(e, k):
+            s = uobj.s
+            return [('removed-so-far', s == seqs.erase_fold(L0, E, k)),
+                    ('members', ForAll([y], mem(s, y) == And(mem(L0, y), Not(seqs.infirst(E, y, k))), patterns=[mem(s, y)])),
+                    ('nodup', nodup(s))]
+        spec = LoopSpec(inv)
+        spec.havoc_objs = [uobj]
+
+        def finish(path, env, outcome):
+            if outcome[0] != 'return':
+                path.oblige('post/no-exception', 'post', BoolVal(False))
+                return
+            O, P, C = view(d)
+            r = outcome[1]
+            path.oblige('post/returns-the-deleted-names-in-order', 'post', BoolVal(r is made.get('list')) if made.get('list') is None
+                        else And(BoolVal(r is made['list']), r.s == E))
+            # use lemma.erase_fold_keep (assumed) and mem-infirst
+            path.assume([seqs.st_erase_fold_keep(L0, S, Sc), seqs.st_mem_infirst(E)])
+            kept = seqs.keep(L0, S)
+            if axis == 'object':
+                path.oblige('post/view', 'post', And(O == kept, P == d.P0, C == d.C0))
+            else:
+                path.oblige('post/view', 'post', And(P == kept, O == d.O0, C == d.C0))
+            post_wf(path, d)
+        return {'self': d}, {'closed_form': {'SetComp#0': set_closed, 'ListComp#0': list_closed}, 0: spec}, finish
+    return body
+
+
+for _ax in ('object', 'property'):
+    _nm = 'remove_empty_%s' % ('objects' if _ax == 'object' else 'properties')
+    register(Unit('definitions.' + _nm, D, 'MutableMixin.' + _nm, _unit(_remove_empty(_ax)),
+                  assumptions=ASSUME + ['lemma.erase_fold_keep (ASSUMED, validated by enumeration): removing the names outside T one by one leaves keep(s, T)',
+                                        'contract of MutableSet.remove on Unique (unit stdlib.MutableSet.remove)'],
+                  linkage=[('concepts.Definition.' + _nm, None)]))
+
+
+# ---- Triple.__init__ (the base case of the induction over histories) and Triple.__eq__
+
+def _triple_init(path):
+    this = ObjV('Definition', {}, name='self')
+    objs, props = NameSeqArg(path, 'objects'), NameSeqArg(path, 'properties')
+    cellv = Function('cell', I, I, seqs.B)               # truthiness of bools[i][j]
+    # requires (well-typed input): one row per object, one cell per property
+    no, np_ = seqs.slen(objs.s), seqs.slen(props.s)
+
+    class Zip(ObjV):
+        pass
+
+    def zip_(p, args, kw):
+        z = ObjV('zip', {}, name='zip')
+        z.parts = list(args)
+        return z
+    bools = ObjV('Rows', {}, name='bools')
+
+    def unique_ctor(p, a, k):
+        src = seq_of_iterable(a[0])
+        p.assume([seqs.st_fold_facts(seqs.empty, src, seqs.slen(src)), seqs.st_mem_infirst(src), seqs.st_fold_len(src)])
+        return UniqueObj(p, fold_add(seqs.empty, src, seqs.slen(src)), 'Unique(%s)' % a[0].name)
+    tools = ObjV('module', {'Unique': FuncV('tools.Unique', unique_ctor)}, name='tools')
+
+    def pairs_closed(interp, env, node):
+        # {(o, p) for o, boo in zip(objects, bools) for p, b in zip(properties, boo) if b}: checked on symbolic positions (i, j)
+        g1, g2 = node.generators
+        z1 = interp.eval(g1.iter, env)
+        ok = getattr(z1, 'cls', None) == 'zip' and z1.parts == [objs, bools] and not g1.ifs
+        i, j = Int('ci'), Int('cj')
+        row = ObjV('Row', {}, name='bools[i]')
+        inner = dict(env)
+        interp.assign(g1.target, TupleV([TermV(seqs.at(objs.s, i)), row]), inner)
+        z2 = interp.eval(g2.iter, inner)
+        ok = ok and getattr(z2, 'cls', None) == 'zip' and z2.parts == [props, row]
+        b = BoolV(cellv(i, j))
+        interp.assign(g2.target, TupleV([TermV(seqs.at(props.s, j)), b]), inner)
+        conds = [truthy(interp.eval(c, inner)) for c in g2.ifs]
+        el = interp.eval(node.elt, inner)
+        okel = ok and len(conds) == 1 and isinstance(el, TupleV)
+        path.oblige('closed-form/true-cells', 'post',
+                    And(pair_of(el)[0] == seqs.at(objs.s, i), pair_of(el)[1] == seqs.at(props.s, j), conds[0] == cellv(i, j)) if okel else BoolVal(False))
+        C = Const('C!init', PSet)
+        wi, wj = Function('init.wi', Name, Name, I), Function('init.wj', Name, Name, I)
+        path.assume(ForAll([i, j], Implies(And(0 <= i, i < no, 0 <= j, j < np_, cellv(i, j)), Select(C, seqs.at(objs.s, i), seqs.at(props.s, j))),
+                           patterns=[MultiPattern(seqs.at(objs.s, i), seqs.at(props.s, j))]))
+        path.assume(ForAll([a_, b_], Implies(Select(C, a_, b_), And(0 <= wi(a_, b_), wi(a_, b_) < no, 0 <= wj(a_, b_), wj(a_, b_) < np_,
+                                                                     seqs.at(objs.s, wi(a_, b_)) == a_, seqs.at(props.s, wj(a_, b_)) == b_,
+                                                                     cellv(wi(a_, b_), wj(a_, b_)))), patterns=[Select(C, a_, b_)]))
+        return DefPairs(path, C, '_pairs')
+    g = dict(lib.builtins(), tools=tools, zip=FuncV('zip', zip_))
+    dup = Or(Not(nodup(objs.s)), Not(nodup(props.s)))
+
+    def finish(path, env, outcome):
+        if outcome[0] == 'raise':
+            path.oblige('post/ValueError-iff-duplicate-names', 'post', And(BoolVal(outcome[1] == 'ValueError'), dup))
+            return
+        path.oblige('post/accepted', 'post', Not(dup))
+        ok = all(k in this.fields for k in ('_objects', '_properties', '_pairs')) and len(this.fields) == 3 \
+            and this.fields['_objects'] is not this.fields['_properties']
+        path.oblige('post/three-distinct-containers', 'post', BoolVal(ok))
+        if not ok:
+            return
+        O, P, C = view(this)
+        path.oblige('post/names-as-given', 'post', And(O == objs.s, P == props.s))
+        # WF and the no-residue invariant hold initially
+        path.oblige('post/WF', 'post', And(nodup(O), nodup(P)))
+        path.oblige('post/INV', 'post', inv_pairs(O, P, C))
+    return ({'self': this, 'objects': objs, 'properties': props, 'bools': bools}, {'globals': g, 'closed_form': {'SetComp#0': pairs_closed}}, finish)
+
+
+register(Unit('definitions.__init__', D, 'Triple.__init__', _unit(_triple_init),
+              assumptions=['requires rectangular input (one row per object, one cell per property); zip pairs position-wise',
+                           'contract of Unique.__init__ (unit tools.Unique.__init__); lemma.fold_len (ASSUMED, validated by enumeration)'],
+              linkage=[('concepts.Definition.__init__', None)]))
+
+
+def _triple_eq(path):
+    d, other = make_definition(path, 'self'), make_definition(path, 'other')
+    Triple = ObjV('class', {}, name='Triple')
+
+    def isinstance_(p, a, k):
+        return BoolV(a[0] is other and a[1] is Triple)
+    for dd in (d, other):
+        for ax in ('_objects', '_properties'):
+            u = dd.fields[ax]
+            # contract of Set.__eq__ on Unique (stdlib mixin): same elements, order ignored
+            _method(u, '__eq__', lambda p, a, k: BoolV(seqs.setof(a[0].s) == seqs.setof(a[1].s)))
+        _method(dd.fields['_pairs'], '__eq__', lambda p, a, k: BoolV(a[0].P == a[1].P))
+
+    def finish(path, env, outcome):
+        if outcome[0] != 'return':
+            path.oblige('post/no-exception', 'post', BoolVal(False))
+            return
+        spec = And(seqs.setof(d.O0) == seqs.setof(other.O0), seqs.setof(d.P0) == seqs.setof(other.P0), d.C0 == other.C0)
+        path.oblige('post/equal-iff-same-names-and-same-true-cells', 'post', truthy(outcome[1]) == spec)
+    return {'self': d, 'other': other}, {'globals': dict(lib.builtins(), isinstance=FuncV('isinstance', isinstance_), Triple=Triple)}, finish
+
+
+register(Unit('definitions.__eq__', D, 'Triple.__eq__', _unit(_triple_eq),
+              assumptions=['Set.__eq__ on tools.Unique compares element sets (order-insensitive; stdlib mixin, assumed); comparison with a plain triple is not covered here'],
+              linkage=[('concepts.Definition.__eq__', None)]))
+
+
+# ---- the observable triple: objects / properties / bools
+
+def _observable(which):
+    def body(path):
+        d = make_definition(path)
+
+        def tuple_(p, a, k):
+            (v,) = a
+            if isinstance(v, UniqueObj):
+                r = ObjV('tuple', {}, name='tuple(%s)' % v.name)
+                r.s = v.s
+                return r
+            if isinstance(v, (IterV, SeqV)):
+                return SeqV(v.at, v.length, 'tuple(%s)' % v.name)
+            raise Unsupported('tuple of %r' % (v,))
+
+        def finish(path, env, outcome):
+            if outcome[0] != 'return':
+                path.oblige('post/no-exception', 'post', BoolVal(False))
+                return
+            r = outcome[1]
+            if which in ('objects', 'properties'):
+                want = d.O0 if which == 'objects' else d.P0
+                path.oblige('post/the-names-in-order', 'post', (r.s == want) if getattr(r, 's', None) is not None else BoolVal(False))
+            else:
+                ok = isinstance(r, (IterV, SeqV))
+                path.oblige('post/one-row-per-object', 'post', (r.length == seqs.slen(d.O0)) if ok else BoolVal(False))
+                if ok:
+                    i, j = path.fresh_int('i'), path.fresh_int('j')
+                    row = r.at(i)
+                    okr = isinstance(row, (IterV, SeqV))
+                    path.oblige('post/one-cell-per-property', 'post', (row.length == seqs.slen(d.P0)) if okr else BoolVal(False))
+                    if okr:
+                        path.oblige('post/cell-is-membership-of-the-pair', 'post',
+                                    truthy(row.at(j)) == Select(d.C0, seqs.at(d.O0, i), seqs.at(d.P0, j)))
+            path.oblige('post/unchanged', 'post', And(view(d)[0] == d.O0, view(d)[1] == d.P0, view(d)[2] == d.C0))
+        return {'self': d}, {'globals': dict(lib.builtins(), tuple=FuncV('tuple', tuple_))}, finish
+    return body
+
+
+for _w in ('objects', 'properties', 'bools'):
+    register(Unit('definitions.' + _w, D, 'Definition.' + _w, _unit(_observable(_w)),
+                  assumptions=['tuple(Unique) lists the items in order (unit tools.Unique.__iter__)'],
+                  linkage=[('concepts.Definition.%s.fget' % _w, None)]))
+
+
+def _lemma_fresh_equal():
+    def prove(path):
+        O, P = Const('O', Seq), Const('P', Seq)
+        C = Const('C', PSet)
+        path.assume(And(nodup(O), nodup(P), inv_pairs(O, P, C)))
+        # the pair set of a fresh definition built from the own triple: the true cells within the table
+        path.oblige('fresh-definition-has-the-same-pairs', 'lemma',
+                    ForAll([a_, b_], And(mem(O, a_), mem(P, b_), Select(C, a_, b_)) == Select(C, a_, b_), patterns=[Select(C, a_, b_)]))
+    return axioms(), prove
+
+
+register(Unit('lemma.fresh_equal', None, None, _lemma_fresh_equal,
+              assumptions=['with WF and the no-residue invariant a definition equals (Triple.__eq__) the definition built from its own (objects, properties, bools)']))
